@@ -108,10 +108,11 @@ Definition eval_un (o : unop) (v : Z) : res Z :=
   | ULogNot => Ok (b2z (v =? 0))
   end.
 
-(** Expr::run.  Fuel bounds the chain of symbol indirections (an .equ whose body names another
-    symbol is evaluated at the use site); structural recursion needs none, but one fuel unit is
-    spent per node so that a single measure covers both. *)
-Fixpoint run (fuel : nat) (c : ctx) (e : expr) : res Z :=
+(** Expr::run.  [depth] counts the symbol definitions entered (an .equ whose body names another
+    symbol is evaluated at the use site); beyond MAX_SYMBOL_DEPTH = 64 the evaluation fails.  Fuel is
+    the model's termination measure: one unit per node and per indirection. *)
+Definition max_symbol_depth : nat := 64.
+Fixpoint run_n (fuel : nat) (depth : nat) (c : ctx) (e : expr) : res Z :=
   match fuel with
   | O => OutOfFuel
   | S f =>
@@ -119,19 +120,20 @@ Fixpoint run (fuel : nat) (c : ctx) (e : expr) : res Z :=
     | EIdent n =>
         match get_expr c n with
         | Some (EConst a) => Ok a
-        | Some e' => run f c e'
+        | Some e' => if (max_symbol_depth <=? depth)%nat then Err None else run_n f (S depth) c e'
         | None => Err None
         end
     | EConst z => Ok z
     | EFunc fn a =>
         match fn with
-        | EIdent name => do v <- run f c a; eval_func name v
+        | EIdent name => do v <- run_n f depth c a; eval_func name v
         | _ => Err None
         end
-    | EBin l o r => do a <- run f c l; do b <- run f c r; eval_bin o a b
-    | EUn o x => do v <- run f c x; eval_un o v
+    | EBin l o r => do a <- run_n f depth c l; do b <- run_n f depth c r; eval_bin o a b
+    | EUn o x => do v <- run_n f depth c x; eval_un o v
     end
   end.
+Definition run (fuel : nat) (c : ctx) (e : expr) : res Z := run_n fuel 0 c e.
 
 (** get_byte / get_words / get_double_words / get_quad_words / get_bit_index, as functions of the value *)
 Definition byte_of (v : Z) : res Z := if (255 <? v) || (v <? -128) then Err None else Ok (v mod 256).
